@@ -38,6 +38,52 @@ def callees_in_common(ctx, *callers, exclude=()):
     return sorted(x for x in common if x not in {ctx.src.func(e).qual for e in exclude if ctx.src.has_func(e)})
 
 
+def attr_reads_through(ctx, qual, param, depth=3, _seen=None):
+    """Attributes read from the object bound to parameter *param* of *qual*, following plain aliases and the package
+    functions the object is handed to (positionally or by keyword), at most *depth* calls deep.  A syntactic, flow-insensitive
+    over-approximation: a name counts as the object from its first binding on."""
+    import ast
+    _seen = set() if _seen is None else _seen
+    f = ctx.src.func(qual)
+    if (f.qual, param) in _seen:
+        return set()
+    _seen.add((f.qual, param))
+    names = {param}
+    changed = True
+    while changed:
+        changed = False
+        for node in ast.walk(f.node):
+            if isinstance(node, ast.Assign) and isinstance(node.value, ast.Name) and node.value.id in names:
+                for t in node.targets:
+                    if isinstance(t, ast.Name) and t.id not in names:
+                        names.add(t.id); changed = True
+    reads = set()
+    for node in ast.walk(f.node):
+        if isinstance(node, ast.Attribute) and isinstance(node.value, ast.Name) and node.value.id in names \
+                and isinstance(node.ctx, ast.Load):
+            reads.add(node.attr)
+    # a call whose result re-binds the name (x = convert(x, ...)) is the conversion that produces the object, not a use of it
+    rebinding = {id(node.value) for node in ast.walk(f.node)
+                 if isinstance(node, ast.Assign) and isinstance(node.value, ast.Call)
+                 and any(isinstance(t, ast.Name) and t.id in names for t in node.targets)}
+    if depth > 0:
+        for callee, call in ctx.src.calls_in(f):
+            if id(call) in rebinding:
+                continue
+            cf = ctx.src.func(callee)
+            a = cf.node.args
+            pos = [x.arg for x in a.posonlyargs + a.args]
+            if cf.cls and pos and pos[0] in ("self", "cls") and isinstance(call.func, ast.Attribute):
+                pos = pos[1:]
+            for i, arg in enumerate(call.args):
+                if isinstance(arg, ast.Name) and arg.id in names and i < len(pos):
+                    reads |= attr_reads_through(ctx, callee, pos[i], depth - 1, _seen)
+            for kw in call.keywords:
+                if kw.arg and isinstance(kw.value, ast.Name) and kw.value.id in names:
+                    reads |= attr_reads_through(ctx, callee, kw.arg, depth - 1, _seen)
+    return reads
+
+
 def world(ctx, **kw) -> World:
     w = World(ctx.src, **kw)
     w.standard_atoms()
